@@ -206,6 +206,26 @@ func (m *MemStream) Bytes() []byte { return m.inner.Buf }
 // Calls returns the number of Write calls seen.
 func (m *MemStream) Calls() int { return m.inner.call }
 
+// MemFlusher is a non-seekable in-memory sink which also has a Flush method.
+// pdf.NewWriter uses such a sink directly (without a bufio.Writer of its
+// own), so every Write of the Writer reaches the sink unbuffered.
+type MemFlusher struct {
+	MemStream
+	Flushes int
+}
+
+// Flush implements the writeFlusher interface the Writer looks for.
+func (m *MemFlusher) Flush() error {
+	m.Flushes++
+	if m.inner.Fail != nil {
+		m.inner.call++
+		if err := m.inner.Fail(m.inner.call, "flush"); err != nil {
+			return err
+		}
+	}
+	return nil
+}
+
 // MakeFilter maps a filter tag to a filter value.
 func MakeFilter(tag string) pdf.Filter {
 	switch tag {
@@ -559,6 +579,9 @@ func (r *Result) fill(sink io.Writer) {
 	case *MemSeekable:
 		r.Data = s.Buf
 		r.Writes, r.Seeks = s.Writes, s.Seeks
+	case *MemFlusher:
+		r.Data = s.inner.Buf
+		r.Writes = s.inner.Writes
 	case *MemStream:
 		r.Data = s.inner.Buf
 		r.Writes = s.inner.Writes
